@@ -168,6 +168,9 @@ class SymClient(Client):
             if isinstance(x, ast.Compare) and len(x.ops) == 1:
                 return ("cmp", type(x.ops[0]).__name__, go(x.left), go(x.comparators[0]))
             if isinstance(x, ast.IfExp):
+                taken = env.get(("$ifexp", d) + _site(x))
+                if taken is not None:
+                    return go(x.body if taken else x.orelse)        # the arm this path went through
                 return ("ifexp", go(x.test), go(x.body), go(x.orelse))
             if isinstance(x, ast.Call):
                 r = env.get(("$retval", d) + _site(x))
@@ -415,6 +418,9 @@ class SymClient(Client):
                         del env[k]
                     env[("$havoc",)] = ver
                 changed = True
+        elif kind in ("ifexp_true", "ifexp_false"):
+            env[("$ifexp", d) + _site(node)] = (kind == "ifexp_true")
+            changed = True
         elif kind == "iter":
             # the iterated expression is evaluated once, in front of the loop: its term is fixed here
             par = getattr(node, "_parent", None)
